@@ -495,10 +495,27 @@ func drawClaimName(rt *rapid.T, label string) string {
 }
 
 // drawValue draws a JSON value as Go data (nil, bool, float64, string, []any, map[string]any).
-func drawValue(rt *rapid.T, label string, depth int) any {
+func drawValue(rt *rapid.T, label string, depth int) any { return drawValueT(rt, label, depth, false) }
+
+// drawTameValue is drawValue restricted to numbers every JSON parser reads alike (at most 15
+// significant digits, no exponent when written): used for hand-written payloads whose decision
+// must stay binding.
+func drawTameValue(rt *rapid.T, label string, depth int) any { return drawValueT(rt, label, depth, true) }
+
+func drawValueT(rt *rapid.T, label string, depth int, tame bool) any {
 	k := rapid.IntRange(0, 9).Draw(rt, label+"_vkind")
 	if depth >= 3 && k >= 7 {
 		k -= 6
+	}
+	if tame && (k == 2 || k == 3 || k == 4) {
+		switch k {
+		case 2:
+			return float64(rapid.Int64Range(-999999999999999, 999999999999999).Draw(rt, label+"_int"))
+		case 3:
+			return rapid.SampledFrom([]float64{0, 1, -1, 0.5, -0.25, 123456.789, 1700000000, 253402300799}).Draw(rt, label+"_float_special")
+		default:
+			return float64(rapid.Int64Range(-1e9, 1e9).Draw(rt, label+"_eighths")) / 8
+		}
 	}
 	switch k {
 	case 0:
@@ -517,14 +534,14 @@ func drawValue(rt *rapid.T, label string, depth int) any {
 		n := rapid.IntRange(0, 3).Draw(rt, label+"_alen")
 		a := make([]any, n)
 		for i := range a {
-			a[i] = drawValue(rt, fmt.Sprintf("%s[%d]", label, i), depth+1)
+			a[i] = drawValueT(rt, fmt.Sprintf("%s[%d]", label, i), depth+1, tame)
 		}
 		return a
 	default:
 		n := rapid.IntRange(0, 3).Draw(rt, label+"_olen")
 		m := map[string]any{}
 		for i := 0; i < n; i++ {
-			m[drawString(rt, fmt.Sprintf("%s.name%d", label, i))] = drawValue(rt, fmt.Sprintf("%s.member%d", label, i), depth+1)
+			m[drawString(rt, fmt.Sprintf("%s.name%d", label, i))] = drawValueT(rt, fmt.Sprintf("%s.member%d", label, i), depth+1, tame)
 		}
 		return m
 	}
